@@ -177,6 +177,12 @@ type artTree struct {
 	// COW + CAS: readers are lock-free; writers clone payloads and CAS root/parent.
 	root  atomic.Pointer[artNode]
 	arena *Arena
+	// writeMu serializes writers. A writer replaces an inner node by a clone
+	// (insertChild, splitPrefix) while another writer may still CAS a new
+	// payload into the replaced node; that second insert would succeed on a
+	// node no longer reachable from the root and be lost. Readers never take
+	// the lock.
+	writeMu sync.Mutex
 }
 
 func newARTree(arenaSize int64) *artTree {
@@ -222,6 +228,8 @@ func (t *artTree) Set(key []byte, value kv.ValueStruct) {
 	if t == nil || len(key) == 0 {
 		return
 	}
+	t.writeMu.Lock()
+	defer t.writeMu.Unlock()
 	for {
 		if t.tryInsert(key, value) {
 			return
